@@ -40,21 +40,34 @@ func C15(c *Ctx) {
 		return ok && cl.Common().StaticCallee() == change
 	}
 	// ---- R1 RunMachine
+	// (in RunMachine, or in the helper of package sio it hands the walk to)
 	var applies, reports []*ssa.Store
-	ssau.Instrs(runM, func(in ssa.Instruction) {
-		st, ok := in.(*ssa.Store)
-		if !ok {
-			return
+	for _, rf := range pkgClosure(runM) {
+		if prog.PkgOf(rf) != "sio" || rf == change || rf == setM || rf == delM {
+			continue
 		}
-		if ssau.IsField(st.Addr, prog.Abs("crew"), "Machine", "State") {
-			applies = append(applies, st)
-		}
-		if isChangeField(st.Addr, "State") {
-			reports = append(reports, st)
-		}
-	})
+		ssau.Instrs(rf, func(in ssa.Instruction) {
+			st, ok := in.(*ssa.Store)
+			if !ok {
+				return
+			}
+			if ssau.IsField(st.Addr, prog.Abs("crew"), "Machine", "State") {
+				applies = append(applies, st)
+			}
+			if isChangeField(st.Addr, "State") {
+				reports = append(reports, st)
+			}
+		})
+	}
 	okPair := len(applies) == 1 && len(reports) == 1
 	why := fmt.Sprintf("%d assignments of the live state, %d records in the change cache", len(applies), len(reports))
+	if okPair && applies[0].Parent() != reports[0].Parent() {
+		okPair, why = false, "the live state is assigned in "+applies[0].Parent().Name()+" and the change recorded in "+reports[0].Parent().Name()
+	}
+	runM0 := runM
+	if okPair {
+		runM = applies[0].Parent()
+	}
 	if okPair {
 		a, r := applies[0], reports[0]
 		// no return reachable between them: every path from the first to a return passes the second, both ways
@@ -88,6 +101,7 @@ func C15(c *Ctx) {
 			}
 		}
 	}
+	runM = runM0
 	c.R.Check(okPair, "C15-R1", "RunMachine: state applied iff reported", c.P.Pos(runM.Pos()), "one assignment of Machine.State and one record of Changed.State, with no exit in between", "a machine can move without the move being reported (or be reported without moving): "+why)
 	// SetMachine: state recorded and applied
 	var recState, recSrc bool
@@ -517,8 +531,17 @@ func c15Walks(c *Ctx, runM *ssa.Function) {
 			continue
 		}
 		ssau.Instrs(f, func(in ssa.Instruction) {
-			if cl, ok := in.(*ssa.Call); ok && cl.Common().StaticCallee() == walk {
-				calls = append(calls, cl)
+			if cl, ok := in.(*ssa.Call); ok {
+				if cl.Common().StaticCallee() == walk {
+					calls = append(calls, cl)
+				} else if cl.Common().IsInvoke() && cl.Common().Method.Name() == "Walk" {
+					// the spec handed through an interface: resolved by the call graph
+					for _, cal := range c.P.Callees(cl) {
+						if cal == walk {
+							calls = append(calls, cl)
+						}
+					}
+				}
 			}
 		})
 	}
@@ -561,6 +584,9 @@ func c15Walks(c *Ctx, runM *ssa.Function) {
 	}
 	for i, cl := range calls {
 		args := cl.Common().Args // spec, ctx, st, msgs, ctl, props
+		if cl.Common().IsInvoke() {
+			args = append([]ssa.Value{cl.Common().Value}, args...) // an invoke has no receiver operand
+		}
 		okState := false
 		if len(args) >= 3 {
 			okState = true
